@@ -25,10 +25,13 @@ META = {
                     "triangular/diagonal helper is executed on real variables with symbolic constants; the value of "
                     "the result at an arbitrary symbolic assignment is compared by z3 with real NumPy applied to the "
                     "value arrays.  Complete over values (polynomial identities); shapes, index expressions and "
-                    "compositions are enumerated up to the stated bounds."),
+                    "compositions are enumerated up to the stated bounds.  The CSR row-pointer loops of array_to_sparse / sv_to_csr are "
+                    "proved for every number of rows by loop-invariant VCs generated from the real source (engine LV, fragment mode)."),
     "bounds": "rank <= 3, every dimension in {1,2,3}; index grammar enumerated per shape; compositions to depth 2 (quick) / 3 (thorough), sampled with VERIF_SEED",
     "trusted_base": ["z3/cvc5", "NumPy as the reference semantics (the property's own oracle)", "ShimCSR for scipy.sparse (conformance-tested)"],
-    "assumptions": ["A-NZ(C05): symbolic constants are assumed non-zero (zero patterns are covered by separate concrete-zero configurations), "
+    "assumptions": ["A-LV-FRAGMENT(C05): of array_to_sparse / sv_to_csr only `indptr = np.zeros(size+1)` and the loop are under the LV contract; "
+                    "the dropped prelude is assumed to give len(all_items) == size; per-row counts are uninterpreted functions; integers are mathematical",
+                    "A-NZ(C05): symbolic constants are assumed non-zero (zero patterns are covered by separate concrete-zero configurations), "
                     "because SciPy's value-dependent pruning of stored zeros would otherwise fork every entry"],
 }
 
@@ -653,6 +656,62 @@ def biaffine(shapes):
     return out
 
 
+def row_pointer_loops_lv():
+    """The CSR row-pointer loops of array_to_sparse / sv_to_csr for EVERY number of rows (engine LV, fragment mode, contracts in
+    props/c05_lv.py).  A VC that is not discharged is a violation only with a failing input found natively (random rows against
+    a dense reference)."""
+    from .. import lv
+    from . import c05_lv
+    from ..install import native
+
+    def search_a2s():
+        import scipy.sparse as rsp
+        rng = np.random.default_rng(7)
+        with native():
+            for n in range(1, 7):
+                for _ in range(20):
+                    rows = [rsp.csr_matrix(rng.integers(-1, 2, (1, 4)).astype(float)) for _ in range(n)]
+                    a = np.empty(n, dtype=object)
+                    for i, r in enumerate(rows):
+                        a[i] = r
+                    try:
+                        got = subroutines.array_to_sparse(a).toarray()
+                    except Exception as e:       # noqa
+                        return f"array_to_sparse raised {type(e).__name__} on {n} rows"
+                    want = np.vstack([r.toarray() for r in rows])
+                    if got.shape != want.shape or not np.allclose(got, want):
+                        return f"array_to_sparse of rows {[r.toarray().tolist() for r in rows]} gives {got.tolist()}"
+        return True
+
+    def search_sv():
+        rng = np.random.default_rng(11)
+        with native():
+            for n in range(1, 7):
+                for _ in range(20):
+                    items, want = [], np.zeros((n, 5))
+                    for i in range(n):
+                        k = int(rng.integers(0, 4))
+                        idx = [int(v) for v in rng.integers(0, 5, k)]
+                        val = [float(v) for v in rng.integers(-1, 2, k)]
+                        items.append(lp.SparseVec(idx, val, 5))
+                        for j, v in zip(idx, val):
+                            want[i, j] += v
+                    a = np.empty(n, dtype=object)
+                    for i, it in enumerate(items):
+                        a[i] = it
+                    try:
+                        got = subroutines.sv_to_csr(a).toarray()
+                    except Exception as e:       # noqa
+                        return f"sv_to_csr raised {type(e).__name__} on {n} rows"
+                    if got.shape != want.shape or not np.allclose(got, want):
+                        return f"sv_to_csr of {[(it.index, it.value) for it in items]} gives {got.tolist()}"
+        return True
+    out = []
+    out += lv.verify_function("rsome.subroutines:array_to_sparse", subroutines.array_to_sparse, c05_lv.ARRAY_TO_SPARSE, {}, native_search=search_a2s)
+    out += lv.verify_function("rsome.subroutines:sv_to_csr", subroutines.sv_to_csr, c05_lv.SV_TO_CSR, {}, native_search=search_sv)
+    return out
+
+
 def sparse_const():
     import scipy.sparse as rsp
     out = []
@@ -761,6 +820,7 @@ def jobs(tier):
     js.append({"name": "dro-stateful-reuse", "kind": "reuse", "front": "dro"})
     js.append({"name": "biaffine", "kind": "biaffine"})
     js.append({"name": "sparse-const", "kind": "sparse_const"})
+    js.append({"name": "row-pointer-loops-all-sizes", "kind": "lv"})
     js.append({"name": "shim-conformance", "kind": "conformance"})
     # the dro front end: its wrapper classes must be the same algebra
     dsh = [list(s) for s in (sh[:4] if tier == "quick" else sh)]
@@ -808,6 +868,8 @@ def _run_job(job):
         for sv in _t(job["shapes"]):
             out += matmul_pair(sv, _t(job["others"]), job["zeros"])
         return out
+    if k == "lv":
+        return row_pointer_loops_lv()
     if k == "matmul_pairs":
         out = []
         for sv, sc in job["pairs"]:
